@@ -140,10 +140,13 @@ impl wire::Decode for NodeAnnouncement {
         let alias = wire::Decode::decode(reader)?;
         let addresses = BoundedVec::<Address, ADDRESS_LIMIT>::decode(reader)?;
         let nonce = u64::decode(reader)?;
-        let agent = match UserAgent::decode(reader) {
-            Ok(ua) => ua,
-            Err(e) if e.is_eof() => UserAgent::default(),
-            Err(e) => return Err(e),
+        // Nb. The user agent is optional, for backwards compatibility. It is only considered
+        // missing if nothing at all follows the nonce: a truncated user agent is an error.
+        let mut first = [0u8; 1];
+        let agent = if reader.read(&mut first)? == 0 {
+            UserAgent::default()
+        } else {
+            UserAgent::decode(&mut io::Read::chain(first.as_slice(), &mut *reader))?
         };
 
         Ok(Self {
